@@ -138,8 +138,7 @@ def rule_namespaces(ctx):
     # printer templates
     suffixes = {}
     for ty in ("FunctionConstant",):
-        t = printers.token_table(printers.evaluate(fx, printers.display_impl(fx, "tptp", ty)).value) or {}
-        suffixes = {k: re.sub(r"^\{\w*\}", "", v) for k, v in t.items() if v and re.match(r"\{\w*\}", v)}
+        suffixes = {k: v for k, v in printers.sort_suffixes(fx, "tptp", ty).items() if v}
     fc = R.seq(user, R.alt(*[R.lit(s) for s in sorted(set(suffixes.values()))])) if suffixes else None
     if fc is None:
         raise AnalysisGap("function constant suffix table not found")
